@@ -447,5 +447,35 @@ theorem translated_lifecycle_restart_refused (c : Cfg) (s : RfState) (hs : s.sim
   unfold TrL.runForever
   simp [hs, bind_apply, get_apply, pure_apply, raise_apply]
 
+/-- audit (exceptions): the set-up calls inside the `try:` – `asyncio.Queue()`, `asyncio.Event()`,
+    `_check_persistent_data()`, `_resolver.resolve()`, `finalize()` – can raise in reality; wherever one
+    fails, the translated skeleton records the failure as the error of the simulation (with
+    `_simtask` set, nothing started, nothing stopped, the storage untouched) and raises it.  Moving
+    one of these calls out of the `try:` breaks this theorem. -/
+theorem translated_lifecycle_prestart_failure_recorded (c : Cfg) (f : RfFault) (hb : c.cause.before = false)
+    (hne : c.blocks.isEmpty = false)
+    (hf : f = .newQueue ∨ f = .newInitDone ∨ f = .checkPersistentData ∨ f = .resolve ∨ f = .finalize) :
+    ∃ s', TrL.runForever (rfPrimsF c f) (rfInit c) = (s', .raise .failure) ∧ s'.error = some .failure ∧
+      s'.simtask = true ∧ s'.started = [] ∧ s'.trace = [] ∧ s'.storage = storage0 c.blocks ∧ s'.startOk = false :=
+  prestart_failure_spec c f hb hne hf
+
+/-- audit: `await _test_eager_tasks()` is before the `try:` and before `_simtask` is set – its
+    failure escapes and leaves the circuit untouched (it can be started again) -/
+theorem translated_lifecycle_eager_failure_escapes (c : Cfg) (s : RfState) (hs : s.simtask = false) :
+    TrL.runForever (rfPrimsF c .testEager) s = (s, .raise .failure) :=
+  eager_failure_spec c s hs
+
+/-- audit: the write of the stop time can raise (a storage back-end); it sits after the save step
+    and BEFORE `_stop_sblocks`, outside any `try`: its exception escapes right there, the states are
+    saved and no block is stopped.  (What the code does, not what the property wants; the model has
+    no failing storage.)  Moving the write after `_stop_sblocks` breaks this theorem. -/
+theorem translated_lifecycle_stamp_failure_skips_stop (c : Cfg) (r : Result) (h : runForever c = some r)
+    (hb : c.cause.before = false) (hne : c.blocks.isEmpty = false)
+    (hok : (plan c).phase ≠ .startFailed ∧ (plan c).phase ≠ .afterStart) :
+    ∃ s', TrL.runForever (rfPrimsF c .stamp) (rfInit c) = (s', .raise .failure) ∧
+      s'.trace = (plan c).startEvs ++ (plan c).puts ∧ s'.started = r.started ∧ s'.storage = r.storage ∧
+      s'.startOk = true :=
+  stamp_failure_spec c r h hb hne hok
+
 end Edzed.TrTie
 
